@@ -352,6 +352,20 @@ func (n *Node) Exec(b *Block) (*abci.ResponseFinalizeBlock, error) {
 	return res, err
 }
 
+// Simulate runs a transaction the way a client's gas estimation does (baseapp.Simulate:
+// ante handler without signature verification, then the messages, on a branch of the check
+// state that is discarded). It reports whether the simulated execution succeeded; a panic
+// that baseapp does not recover is returned as an error.
+func (n *Node) Simulate(tx []byte) (bool, error) {
+	ok := false
+	err := catch("Simulate", func() error {
+		_, _, e := n.App.BaseApp.Simulate(tx)
+		ok = e == nil
+		return nil
+	})
+	return ok, err
+}
+
 // Commit makes the executed block durable.
 func (n *Node) Commit(b *Block) error {
 	return catch("Commit", func() error {
